@@ -242,4 +242,233 @@ example : ∃ out, writeFrame ⟨3, 3, 42, 99, 0⟩ [1, 2, 3] 4096 = .ok out :=
   let ⟨out, h, _⟩ := c26_frame_roundtrip ⟨3, 3, 42, 99, 0⟩ [1, 2, 3] [] 4096 (by unfold GoInt; omega) (by decide)
   ⟨out, h⟩
 
+/-! ### bad declared count: rejected without allocation -/
+
+/-- a header that is fine except that its declared body length does not fit the limit
+    (negative limit, or length above it) is refused by DecodeHeader with ErrMsgTooLarge -/
+theorem c26_header_rejects_bad_count (h : Header) (max : Int) (hm : GoInt max) (hwf : h.WF)
+    (hk : kindOK h.kind = true) (hp : priorityOK h.priority = true) (hbad : max < 0 ∨ max < (h.bodyLen : Int)) :
+    decodeHeader (encodeHeader h) max = .error .msgTooLarge := by
+  obtain ⟨r1, r2, r3, r4, r5, r6, r7, r8, r9⟩ := rd_enc h hwf
+  have hb : bodyExceedsMax h.bodyLen max = true := (bodyExceedsMax_iff _ _ hwf.2.2.2.2 hm).mpr hbad
+  obtain ⟨hwk, hwp, _⟩ := hwf
+  unfold decodeHeader
+  simp [enc_len, r1, r2, r3, r4, r5, r6, r7, r8, r9, c26_valid_ranges.1, c26_valid_ranges.2, hk, hp, hb,
+    Nat.mod_eq_of_lt hwk, Nat.mod_eq_of_lt hwp]
+
+/-- **frame: an oversize / negative-limit count is rejected without allocation**: ReadFrame on a
+    stream that starts with such a header returns ErrMsgTooLarge having consumed exactly the 24
+    header bytes and requested no body buffer — however large the declared length is. -/
+theorem c26_frame_rejects_bad_count (h : Header) (rest : Bytes) (max : Int) (hm : GoInt max) (hwf : h.WF)
+    (hk : kindOK h.kind = true) (hp : priorityOK h.priority = true) (hbad : max < 0 ∨ max < (h.bodyLen : Int)) :
+    (readFrame (encodeHeader h ++ rest) max).res = .error (.hdr .msgTooLarge) ∧
+    (readFrame (encodeHeader h ++ rest) max).consumed = HeaderSize ∧
+    (readFrame (encodeHeader h ++ rest) max).alloc = 0 := by
+  have hl := enc_len h
+  have hs : HeaderSize = 24 := rfl
+  have htake : (encodeHeader h ++ rest).take HeaderSize = encodeHeader h := by
+    rw [List.take_append_of_le_length (by omega), List.take_of_length_le (by omega)]
+  have hne : ¬ ((encodeHeader h ++ rest).length = 0) := by simp [hl, hs]
+  have hge : ¬ ((encodeHeader h ++ rest).length < HeaderSize) := by simp [hl, hs]
+  unfold readFrame
+  simp only [hne, hge, if_false, htake, c26_header_rejects_bad_count h max hm hwf hk hp hbad]
+  simp
+
+example : (readFrame (encodeHeader ⟨3, 3, 0, 0, 4000000000⟩ ++ [1, 2]) 1024).alloc = 0 :=
+  (c26_frame_rejects_bad_count ⟨3, 3, 0, 0, 4000000000⟩ [1, 2] 1024 (by unfold GoInt; omega) (by decide) (by decide) (by decide)
+    (by right; decide)).2.2
+example : (readFrame (encodeHeader ⟨3, 3, 0, 0, 0⟩) (-1)).res = .error (.hdr .msgTooLarge) :=
+  by simpa using (c26_frame_rejects_bad_count ⟨3, 3, 0, 0, 0⟩ [] (-1) (by unfold GoInt; omega) (by decide) (by decide) (by decide)
+    (by left; decide)).1
+
+/-! ### accepted ⇒ canonical -/
+
+theorem ofNat_add_mul256 (a x : Nat) : UInt8.ofNat (a * 256 + x) = UInt8.ofNat x := by
+  apply UInt8.toNat_inj.mp; simp
+
+/-- byte `j` of the big-endian rendering of what was read at `off` is the byte at `off + j` -/
+theorem beByte_rd (bs : Bytes) : ∀ (w off j : Nat), j < w → beByte w (rd bs off w) j = byteAt bs (off + j) := by
+  intro w
+  induction w with
+  | zero => intro off j h; omega
+  | succ w ih =>
+    intro off j hj
+    simp only [rd, beByte, Nat.add_sub_cancel]
+    have hlt := rd_lt bs (off + 1) w
+    cases j with
+    | zero =>
+      simp only [Nat.sub_zero, Nat.add_zero]
+      have : ((byteAt bs off).toNat * 256 ^ w + rd bs (off + 1) w) / 256 ^ w = (byteAt bs off).toNat := by
+        rw [Nat.add_comm, Nat.add_mul_div_right _ _ (Nat.pow_pos (by omega)), Nat.div_eq_of_lt hlt]; omega
+      rw [this]
+      apply UInt8.toNat_inj.mp; simp
+    | succ j =>
+      have hjw : j < w := by omega
+      have hsplit : 256 ^ w = 256 ^ (j + 1) * 256 ^ (w - (j + 1)) := by
+        rw [← Nat.pow_add]; congr 1; omega
+      have hdiv : ((byteAt bs off).toNat * 256 ^ w + rd bs (off + 1) w) / 256 ^ (w - (j + 1))
+          = (byteAt bs off).toNat * 256 ^ (j + 1) + rd bs (off + 1) w / 256 ^ (w - (j + 1)) := by
+        rw [hsplit, ← Nat.mul_assoc, Nat.add_comm, Nat.add_mul_div_right _ _ (Nat.pow_pos (by omega)), Nat.add_comm]
+      rw [hdiv]
+      have h256 : (byteAt bs off).toNat * 256 ^ (j + 1) = ((byteAt bs off).toNat * 256 ^ j) * 256 := by
+        rw [Nat.pow_succ, Nat.mul_assoc]
+      rw [h256, ofNat_add_mul256]
+      have := ih (off + 1) j hjw
+      simp only [beByte] at this
+      have e : w - 1 - j = w - (j + 1) := by omega
+      rw [e] at this
+      rw [this]
+      congr 1; omega
+
+theorem bytes_ext (a b : Bytes) (hl : a.length = b.length) (h : ∀ i, i < a.length → byteAt a i = byteAt b i) : a = b := by
+  apply List.ext_getElem hl
+  intro i h1 h2
+  have := h i h1
+  simpa [byteAt, List.getD_eq_getElem?_getD, List.getElem?_eq_getElem h1, List.getElem?_eq_getElem h2] using this
+
+/-- **header: accepted ⇒ canonical** — the 24 bytes DecodeHeader accepts are exactly
+    EncodeHeader of the header it returns: no other byte string decodes to that header, and every
+    accepted field value is what the sender's encoder would have written. -/
+theorem c26_header_canonical (bs : Bytes) (max : Int) (hm : GoInt max) (h : Header)
+    (hd : decodeHeader bs max = .ok h) : bs.take HeaderSize = encodeHeader h := by
+  obtain ⟨a1, fm, fv, ff, fz, a6, a7, a8, a9, a10, _, _, _, _⟩ := c26_header_accepts_only bs max hm h hd
+  have hs : HeaderSize = 24 := rfl
+  simp only [headerMagicOffset, headerVersionOffset, headerFlagsOffset, headerReservedOffset, headerKindOffset,
+    headerPriorityOffset, headerServiceIDOffset, headerRequestIDOffset, headerBodyLenOffset] at fm fv ff fz a6 a7 a8 a9 a10
+  have hk1 : rd bs 4 1 < 256 := rd_lt bs 4 1
+  have hp1 : rd bs 5 1 < 256 := rd_lt bs 5 1
+  have fk : rd bs 4 1 = h.kind % 2 ^ 8 := by rw [a6]; omega
+  have fp : rd bs 5 1 = h.priority % 2 ^ 8 := by rw [a7]; omega
+  have fs : rd bs 6 2 = h.serviceID := a8.symm
+  have fr : rd bs 8 8 = h.requestID := a9.symm
+  have fb : rd bs 16 4 = h.bodyLen := a10.symm
+  symm
+  apply bytes_ext
+  · rw [enc_len, List.length_take]; omega
+  intro i hi
+  rw [enc_len, hs] at hi
+  rw [byteAt_take bs HeaderSize i (by omega)]
+  have hcases : i = 0 ∨ i = 1 ∨ i = 2 ∨ i = 3 ∨ i = 4 ∨ i = 5 ∨ i = 6 ∨ i = 7 ∨ i = 8 ∨ i = 9 ∨ i = 10 ∨ i = 11 ∨ i = 12 ∨ i = 13 ∨ i = 14 ∨ i = 15 ∨ i = 16 ∨ i = 17 ∨ i = 18 ∨ i = 19 ∨ i = 20 ∨ i = 21 ∨ i = 22 ∨ i = 23 := by omega
+  rcases hcases with rfl | rfl | rfl | rfl | rfl | rfl | rfl | rfl | rfl | rfl | rfl | rfl | rfl | rfl | rfl | rfl | rfl | rfl | rfl | rfl | rfl | rfl | rfl | rfl
+  · have e := beByte_rd bs 2 0 0 (by omega)
+    simp only [Nat.reduceAdd] at e
+    rw [← e, fm]
+    simp [encodeHeader, applyWrites, encodeWrites, byteAt_wr, length_wr, HeaderSize, headerMagicOffset, headerVersionOffset, headerFlagsOffset, headerKindOffset, headerPriorityOffset, headerServiceIDOffset, headerRequestIDOffset, headerBodyLenOffset, headerReservedOffset]
+  · have e := beByte_rd bs 2 0 1 (by omega)
+    simp only [Nat.reduceAdd] at e
+    rw [← e, fm]
+    simp [encodeHeader, applyWrites, encodeWrites, byteAt_wr, length_wr, HeaderSize, headerMagicOffset, headerVersionOffset, headerFlagsOffset, headerKindOffset, headerPriorityOffset, headerServiceIDOffset, headerRequestIDOffset, headerBodyLenOffset, headerReservedOffset]
+  · have e := beByte_rd bs 1 2 0 (by omega)
+    simp only [Nat.reduceAdd] at e
+    rw [← e, fv]
+    simp [encodeHeader, applyWrites, encodeWrites, byteAt_wr, length_wr, HeaderSize, headerMagicOffset, headerVersionOffset, headerFlagsOffset, headerKindOffset, headerPriorityOffset, headerServiceIDOffset, headerRequestIDOffset, headerBodyLenOffset, headerReservedOffset]
+  · have e := beByte_rd bs 1 3 0 (by omega)
+    simp only [Nat.reduceAdd] at e
+    rw [← e, ff]
+    simp [encodeHeader, applyWrites, encodeWrites, byteAt_wr, length_wr, HeaderSize, headerMagicOffset, headerVersionOffset, headerFlagsOffset, headerKindOffset, headerPriorityOffset, headerServiceIDOffset, headerRequestIDOffset, headerBodyLenOffset, headerReservedOffset]
+  · have e := beByte_rd bs 1 4 0 (by omega)
+    simp only [Nat.reduceAdd] at e
+    rw [← e, fk]
+    simp [encodeHeader, applyWrites, encodeWrites, byteAt_wr, length_wr, HeaderSize, headerMagicOffset, headerVersionOffset, headerFlagsOffset, headerKindOffset, headerPriorityOffset, headerServiceIDOffset, headerRequestIDOffset, headerBodyLenOffset, headerReservedOffset]
+  · have e := beByte_rd bs 1 5 0 (by omega)
+    simp only [Nat.reduceAdd] at e
+    rw [← e, fp]
+    simp [encodeHeader, applyWrites, encodeWrites, byteAt_wr, length_wr, HeaderSize, headerMagicOffset, headerVersionOffset, headerFlagsOffset, headerKindOffset, headerPriorityOffset, headerServiceIDOffset, headerRequestIDOffset, headerBodyLenOffset, headerReservedOffset]
+  · have e := beByte_rd bs 2 6 0 (by omega)
+    simp only [Nat.reduceAdd] at e
+    rw [← e, fs]
+    simp [encodeHeader, applyWrites, encodeWrites, byteAt_wr, length_wr, HeaderSize, headerMagicOffset, headerVersionOffset, headerFlagsOffset, headerKindOffset, headerPriorityOffset, headerServiceIDOffset, headerRequestIDOffset, headerBodyLenOffset, headerReservedOffset]
+  · have e := beByte_rd bs 2 6 1 (by omega)
+    simp only [Nat.reduceAdd] at e
+    rw [← e, fs]
+    simp [encodeHeader, applyWrites, encodeWrites, byteAt_wr, length_wr, HeaderSize, headerMagicOffset, headerVersionOffset, headerFlagsOffset, headerKindOffset, headerPriorityOffset, headerServiceIDOffset, headerRequestIDOffset, headerBodyLenOffset, headerReservedOffset]
+  · have e := beByte_rd bs 8 8 0 (by omega)
+    simp only [Nat.reduceAdd] at e
+    rw [← e, fr]
+    simp [encodeHeader, applyWrites, encodeWrites, byteAt_wr, length_wr, HeaderSize, headerMagicOffset, headerVersionOffset, headerFlagsOffset, headerKindOffset, headerPriorityOffset, headerServiceIDOffset, headerRequestIDOffset, headerBodyLenOffset, headerReservedOffset]
+  · have e := beByte_rd bs 8 8 1 (by omega)
+    simp only [Nat.reduceAdd] at e
+    rw [← e, fr]
+    simp [encodeHeader, applyWrites, encodeWrites, byteAt_wr, length_wr, HeaderSize, headerMagicOffset, headerVersionOffset, headerFlagsOffset, headerKindOffset, headerPriorityOffset, headerServiceIDOffset, headerRequestIDOffset, headerBodyLenOffset, headerReservedOffset]
+  · have e := beByte_rd bs 8 8 2 (by omega)
+    simp only [Nat.reduceAdd] at e
+    rw [← e, fr]
+    simp [encodeHeader, applyWrites, encodeWrites, byteAt_wr, length_wr, HeaderSize, headerMagicOffset, headerVersionOffset, headerFlagsOffset, headerKindOffset, headerPriorityOffset, headerServiceIDOffset, headerRequestIDOffset, headerBodyLenOffset, headerReservedOffset]
+  · have e := beByte_rd bs 8 8 3 (by omega)
+    simp only [Nat.reduceAdd] at e
+    rw [← e, fr]
+    simp [encodeHeader, applyWrites, encodeWrites, byteAt_wr, length_wr, HeaderSize, headerMagicOffset, headerVersionOffset, headerFlagsOffset, headerKindOffset, headerPriorityOffset, headerServiceIDOffset, headerRequestIDOffset, headerBodyLenOffset, headerReservedOffset]
+  · have e := beByte_rd bs 8 8 4 (by omega)
+    simp only [Nat.reduceAdd] at e
+    rw [← e, fr]
+    simp [encodeHeader, applyWrites, encodeWrites, byteAt_wr, length_wr, HeaderSize, headerMagicOffset, headerVersionOffset, headerFlagsOffset, headerKindOffset, headerPriorityOffset, headerServiceIDOffset, headerRequestIDOffset, headerBodyLenOffset, headerReservedOffset]
+  · have e := beByte_rd bs 8 8 5 (by omega)
+    simp only [Nat.reduceAdd] at e
+    rw [← e, fr]
+    simp [encodeHeader, applyWrites, encodeWrites, byteAt_wr, length_wr, HeaderSize, headerMagicOffset, headerVersionOffset, headerFlagsOffset, headerKindOffset, headerPriorityOffset, headerServiceIDOffset, headerRequestIDOffset, headerBodyLenOffset, headerReservedOffset]
+  · have e := beByte_rd bs 8 8 6 (by omega)
+    simp only [Nat.reduceAdd] at e
+    rw [← e, fr]
+    simp [encodeHeader, applyWrites, encodeWrites, byteAt_wr, length_wr, HeaderSize, headerMagicOffset, headerVersionOffset, headerFlagsOffset, headerKindOffset, headerPriorityOffset, headerServiceIDOffset, headerRequestIDOffset, headerBodyLenOffset, headerReservedOffset]
+  · have e := beByte_rd bs 8 8 7 (by omega)
+    simp only [Nat.reduceAdd] at e
+    rw [← e, fr]
+    simp [encodeHeader, applyWrites, encodeWrites, byteAt_wr, length_wr, HeaderSize, headerMagicOffset, headerVersionOffset, headerFlagsOffset, headerKindOffset, headerPriorityOffset, headerServiceIDOffset, headerRequestIDOffset, headerBodyLenOffset, headerReservedOffset]
+  · have e := beByte_rd bs 4 16 0 (by omega)
+    simp only [Nat.reduceAdd] at e
+    rw [← e, fb]
+    simp [encodeHeader, applyWrites, encodeWrites, byteAt_wr, length_wr, HeaderSize, headerMagicOffset, headerVersionOffset, headerFlagsOffset, headerKindOffset, headerPriorityOffset, headerServiceIDOffset, headerRequestIDOffset, headerBodyLenOffset, headerReservedOffset]
+  · have e := beByte_rd bs 4 16 1 (by omega)
+    simp only [Nat.reduceAdd] at e
+    rw [← e, fb]
+    simp [encodeHeader, applyWrites, encodeWrites, byteAt_wr, length_wr, HeaderSize, headerMagicOffset, headerVersionOffset, headerFlagsOffset, headerKindOffset, headerPriorityOffset, headerServiceIDOffset, headerRequestIDOffset, headerBodyLenOffset, headerReservedOffset]
+  · have e := beByte_rd bs 4 16 2 (by omega)
+    simp only [Nat.reduceAdd] at e
+    rw [← e, fb]
+    simp [encodeHeader, applyWrites, encodeWrites, byteAt_wr, length_wr, HeaderSize, headerMagicOffset, headerVersionOffset, headerFlagsOffset, headerKindOffset, headerPriorityOffset, headerServiceIDOffset, headerRequestIDOffset, headerBodyLenOffset, headerReservedOffset]
+  · have e := beByte_rd bs 4 16 3 (by omega)
+    simp only [Nat.reduceAdd] at e
+    rw [← e, fb]
+    simp [encodeHeader, applyWrites, encodeWrites, byteAt_wr, length_wr, HeaderSize, headerMagicOffset, headerVersionOffset, headerFlagsOffset, headerKindOffset, headerPriorityOffset, headerServiceIDOffset, headerRequestIDOffset, headerBodyLenOffset, headerReservedOffset]
+  · have e := beByte_rd bs 4 20 0 (by omega)
+    simp only [Nat.reduceAdd] at e
+    rw [← e, fz]
+    simp [encodeHeader, applyWrites, encodeWrites, byteAt_wr, length_wr, HeaderSize, headerMagicOffset, headerVersionOffset, headerFlagsOffset, headerKindOffset, headerPriorityOffset, headerServiceIDOffset, headerRequestIDOffset, headerBodyLenOffset, headerReservedOffset]
+  · have e := beByte_rd bs 4 20 1 (by omega)
+    simp only [Nat.reduceAdd] at e
+    rw [← e, fz]
+    simp [encodeHeader, applyWrites, encodeWrites, byteAt_wr, length_wr, HeaderSize, headerMagicOffset, headerVersionOffset, headerFlagsOffset, headerKindOffset, headerPriorityOffset, headerServiceIDOffset, headerRequestIDOffset, headerBodyLenOffset, headerReservedOffset]
+  · have e := beByte_rd bs 4 20 2 (by omega)
+    simp only [Nat.reduceAdd] at e
+    rw [← e, fz]
+    simp [encodeHeader, applyWrites, encodeWrites, byteAt_wr, length_wr, HeaderSize, headerMagicOffset, headerVersionOffset, headerFlagsOffset, headerKindOffset, headerPriorityOffset, headerServiceIDOffset, headerRequestIDOffset, headerBodyLenOffset, headerReservedOffset]
+  · have e := beByte_rd bs 4 20 3 (by omega)
+    simp only [Nat.reduceAdd] at e
+    rw [← e, fz]
+    simp [encodeHeader, applyWrites, encodeWrites, byteAt_wr, length_wr, HeaderSize, headerMagicOffset, headerVersionOffset, headerFlagsOffset, headerKindOffset, headerPriorityOffset, headerServiceIDOffset, headerRequestIDOffset, headerBodyLenOffset, headerReservedOffset]
+
+example : (encodeHeader ⟨3, 3, 42, 99, 1234⟩ ++ [7, 7]).take HeaderSize = encodeHeader ⟨3, 3, 42, 99, 1234⟩ :=
+  c26_header_canonical _ 4096 (by unfold GoInt; omega) _
+    (c26_header_roundtrip_stream ⟨3, 3, 42, 99, 1234⟩ [7, 7] 4096 (by unfold GoInt; omega) (by decide))
+
+/-- the judge's predicate is exactly what the decoder guarantees: anything DecodeHeader accepts is
+    `acceptable` (a valid header, long enough, and byte-for-byte its own canonical encoding) -/
+theorem c26_decode_acceptable (bs : Bytes) (max : Int) (hm : GoInt max) (h : Header)
+    (hd : decodeHeader bs max = .ok h) : acceptable bs h max = true := by
+  obtain ⟨a1, _, _, _, _, a6, a7, a8, a9, a10, a11, a12, a13, a14⟩ := c26_header_accepts_only bs max hm h hd
+  have hwf : h.WF := by
+    refine ⟨?_, ?_, ?_, ?_, ?_⟩
+    · rw [a6]; exact Nat.mod_lt _ (by omega)
+    · rw [a7]; exact Nat.mod_lt _ (by omega)
+    · rw [a8]; exact rd_lt bs _ 2
+    · rw [a9]; exact rd_lt bs _ 8
+    · rw [a10]; exact rd_lt bs _ 4
+  have hv : Valid h max := ⟨hwf, a11, a12, a13, a14⟩
+  have hc := c26_header_canonical bs max hm h hd
+  simp [acceptable, hv, a1, hc]
+
+example : acceptable (encodeHeader ⟨3, 3, 42, 99, 1234⟩ ++ [7, 7]) ⟨3, 3, 42, 99, 1234⟩ 4096 = true :=
+  c26_decode_acceptable _ 4096 (by unfold GoInt; omega) _
+    (c26_header_roundtrip_stream ⟨3, 3, 42, 99, 1234⟩ [7, 7] 4096 (by unfold GoInt; omega) (by decide))
+
 end WK.C26
